@@ -30,6 +30,16 @@ RULES = [
     ('C09', [r'^WebApp\.get_script_control']),
     ('C13', [r'^VmDiscover\.disc\[']),
     ('C02', [r'^Machine\.reset$']),
+    # round 7: the job's name is the (escaped) manifest path on every layer (C08: reported as running under its name; C09: stopped by it);
+    # a job that raises frees its slot (C20: the next request must not find a dead script "running"); the built-ins are known at every compile (C16)
+    ('C08', [r'^WebApp\.queue_script']),
+    ('C09', [r'^WebApp\.queue_script']),
+    ('C20', [r'^Agent\._execute_and_call', r'^JobControl\.is_running']),
+    ('C16', [r'^lemma:parse\(t1\); parse\(t2\)']),
+    # a word that becomes a register name is an assignment to that register (`pc 2` would be a jump no jump instruction shows): C05;
+    # what a `time at` wait waits for is the minute / hour set of its pattern: C10
+    ('C05', [r'^Lex\._token_type']),
+    ('C10', [r'^TimePattern\._init_minute_set', r'^TimePattern\._init_hour_set', r'^TimePattern\.match']),
 ]
 for pid, pats in RULES:
     for c in spec.REGISTRY:
